@@ -88,6 +88,37 @@ func init() {
 			// AV1: free packet space at the LEB128 size boundaries (the MTU bound is tightest there)
 			emitAv1LebEdges(r.Fork(808080), []int{128, 16384}, emit)
 			emitH264Extremes(r.Fork(808082), emit)
+			// every one-byte input, and 256 two-byte inputs over the bit patterns the header parsers
+			// branch on, through every payloader and option setting (64 calls per instance): the first
+			// byte alone decides how far a parser reads
+			{
+				alpha := []byte{0x00, 0x01, 0x12, 0x32, 0x40, 0x62, 0x67, 0x7C, 0x80, 0x82, 0x91, 0xA0, 0xB0, 0xB8, 0xC6, 0xFF}
+				var inputs [][]byte
+				for b := 0; b < 256; b++ {
+					inputs = append(inputs, []byte{byte(b)})
+				}
+				for _, a := range alpha {
+					for _, b := range alpha {
+						inputs = append(inputs, []byte{a, b})
+					}
+				}
+				for lo := 0; lo < len(inputs); lo += 64 {
+					calls := TList{}
+					for _, in := range inputs[lo : lo+64] {
+						calls = append(calls, TList{TI(int64(20)), TB(in)})
+					}
+					for opt := 0; opt < 2; opt++ {
+						emit(1101, TI(int64(opt)), TI(0), calls)
+						emit(1201, TI(int64(opt)), TI(0x7FFE), calls)
+						emit(1001, TI(int64(opt)), calls)
+						emit(1401, TI(int64(opt)), TI(0), calls)
+						emit(1401, TI(int64(opt)), TI(1), calls)
+					}
+					for _, in := range inputs[lo : lo+64] {
+						emit(1301, TI(20), TB(in))
+					}
+				}
+			}
 			for i := 0; i < n; i++ {
 				c := r.Fork(uint64(i))
 				mtu := func() int64 {
@@ -163,7 +194,28 @@ func init() {
 					// retained state is exercised while the caller overwrites every delivered buffer
 					ps := TList{}
 					mtu := c.Pick(6, 8, 10, 12, 16, 5+c.Intn(20))
-					switch c.Intn(3) {
+					switch c.Intn(5) {
+					case 3:
+						// well-formed RFC 7798 payloads of every form into one H265 receiver: what one packet
+						// leaves behind (DONL, PHES, aggregation units) must not show in the next
+						wd := c.Bool()
+						for f, fn := 0, 2+c.Intn(5); f < fn; f++ {
+							ps = append(ps, TBytes(rfc7798Encode(wd, genRfc7798Form(c.Fork(uint64(40+f))))))
+						}
+						emit(1402, TI(b2i(wd)), ps)
+					case 4:
+						// VP8 / VP9 descriptors of every shape, back to back
+						if c.Bool() {
+							for f, fn := 0, 2+c.Intn(5); f < fn; f++ {
+								ps = append(ps, TBytes(genVp9Descriptor(c)))
+							}
+							emit(1202, ps)
+						} else {
+							for f, fn := 0, 2+c.Intn(5); f < fn; f++ {
+								ps = append(ps, TBytes(append(genVp8Desc(c).encode(), c.Bytes(1+c.Intn(4))...)))
+							}
+							emit(1102, ps)
+						}
 					case 0:
 						for f := 0; f < 1+c.Intn(2); f++ {
 							for _, pk := range (&codecs.AV1Payloader{}).Payload(uint16(mtu), encodeOBUs(genOBUs(c, mtu))) {
@@ -251,7 +303,7 @@ func init() {
 	})
 	register(&Prop{
 		ID:       "C15",
-		Rule:     "H264Packet and AV1Depacketizer: a frame A is payloaded, every subset of its packets is delivered (all 2^k subsets for k <= 10 packets in thorough, 64 sampled subsets in quick, plus random byte strings as history), then an intact frame B; the outputs for B's packets must equal what a fresh depacketizer produces for B; non-trivial = A has a fragmented unit and the delivered subset is a proper one",
+		Rule:     "H264Packet and AV1Depacketizer: a frame A is payloaded (one time in five B is A again - a retransmission), every subset of A's packets is delivered (all 2^k subsets for k <= 10 packets in thorough, 64 sampled subsets in quick, plus random byte strings as history), then an intact frame B; the outputs for B's packets must equal what a fresh depacketizer produces for B; non-trivial = A has a fragmented unit and the delivered subset is a proper one",
 		Quick:    1500,
 		Thorough: 60000,
 		Gen: func(r *RNG, tier string, n int, emit func(op int, toks ...Tok)) {
@@ -275,6 +327,10 @@ func init() {
 				} else {
 					a = (&codecs.AV1Payloader{}).Payload(uint16(mtu), encodeOBUs(genOBUs(c, mtu)))
 					b = (&codecs.AV1Payloader{}).Payload(uint16(mtu), encodeOBUs(genOBUs(c, mtu)))
+				}
+				if c.Intn(5) == 0 {
+					// retransmission: frame B is frame A again (the lost part of A is whatever the mask drops)
+					b = a
 				}
 				if len(b) == 0 {
 					continue
